@@ -27,6 +27,15 @@ def producer(r, prefixes):
     # code -> spec: exhaustive crash-point enumeration and seeded random histories
     t2 = r.drive("producer", name="producer-enum")
     r.tlc_validate("ProducerTrace", t2, prefixes)
+    # step-level conformance of the tier-I module itself: every record is an action of Producer.tla
+    def corrupt(ev):
+        if ev.get("ev") == "KV" and ev.get("kind") == "state" and ev.get("h", 0) >= 2:
+            ev = dict(ev)
+            ev["h"] += 1
+            return ev
+        return None
+    for t in (t1, t3, t2):
+        r.tlc_strict("ProducerStrict", t, "ih", "IH", selftest=corrupt if t is t2 else None)
 
 
 def c01(r):
@@ -85,6 +94,14 @@ def c10(r):
         raise Inconclusive("BatchQueue_hashkey.cfg should reproduce the (fixed) content-hash-key defect")
     t = r.drive("queue", name="queue")
     r.tlc_validate("QueueTrace", t, ["C10."])
+    # step-level conformance: every record (database write, call return, restart, crash) is an action of BatchQueue.tla
+    def corrupt(ev):
+        if ev.get("ev") == "KV" and ev.get("kind") == "queue" and ev.get("op") == "del":
+            ev = dict(ev)
+            ev["h"] = ev.get("h", 0) + 1
+            return ev
+        return None
+    r.tlc_strict("QueueStrict", t, "bound", "Bound", to_const=lambda b: 1000000 if not b else b, selftest=corrupt)
 
 
 def c11(r):
